@@ -159,7 +159,7 @@ def gen_case(seed, tier="quick"):
         chosen = (pref[:1] + cand)[: rng.choice((1, 1, 2, 3))]
         for i in sorted(set(chosen)):
             flts.append({"i": i, "seam": rng.choice(fault_kinds), "n": rng.choice((1, 1, 2, 2, 3, 4, 6)),
-                         "exc": rng.choice(("FloatingPointError", "MemoryError", "OverflowError", "ZeroDivisionError", "SimCancel"))})
+                         "exc": rng.choice(("FloatingPointError", "MemoryError", "OverflowError", "ZeroDivisionError", "SimCancel", "Reenter"))})
         if rng.random() < 0.3:
             cs = [i for i, s in enumerate(steps) if s["s"] == "set"]
             if cs:
@@ -503,7 +503,7 @@ def run_case(case, vector):
         finally:
             faults.set_ctx(None)
         _fired(stats, ctx)
-        injected = bool(ctx.fired)
+        injected = any(fk[3] != "Reenter" for fk in ctx.fired)
         if exc is not None:
             stats["raised"] += 1
             _nat(stats, exc)
@@ -589,6 +589,8 @@ def _fired(stats, ctx):
         stats["faults_fired"][fk[0]] += 1
         if fk[3] == "SimCancel":
             stats["faults_fired"]["cancel"] = stats["faults_fired"].get("cancel", 0) + 1
+        if fk[3] == "Reenter":
+            stats["faults_fired"]["reenter"] = stats["faults_fired"].get("reenter", 0) + 1
 
 
 def _nat(stats, e):
